@@ -217,13 +217,13 @@ class Apply(Suite):
     name = "apply"
     go_cmd = "c06"
     coq_imports = "From GoGit Require Import Model.Delta Spec.GitDelta."
-    quick_n = 200
+    quick_n = 160
     thorough_n = 1200
     coq_chunk = 40
 
     def gen(self, rng, n, tier):
         cases = []
-        nbig = 4 if tier == "quick" else 24
+        nbig = 3 if tier == "quick" else 24
         for _ in range(nbig):
             cases.append(gen_apply_case(rng, "big-copy"))
         for _ in range(n - nbig):
@@ -438,7 +438,7 @@ class Diff(Suite):
     name = "diff"
     go_cmd = "c06"
     coq_imports = "From GoGit Require Import Model.Delta."
-    quick_n = 80
+    quick_n = 60
     thorough_n = 400
     coq_chunk = 30
 
@@ -447,7 +447,7 @@ class Diff(Suite):
 
     def gen(self, rng, n, tier):
         cases = []
-        nbig = 3 if tier == "quick" else 16
+        nbig = 2 if tier == "quick" else 16
         for k in range(n):
             b = "big-copy" if k < nbig else pick_weighted(rng, DIFF_BUCKETS)
             s, t = gen_diff_case(rng, b)
